@@ -64,6 +64,16 @@ CHECKS.update({
          'get_conf / Event.dest / frozen-ness must equal the specification.',
          TRUSTED, '6 C15'),
 })
+CHECKS.update({
+ 'C04': (MC, 'TLC model checking of FsmTimed.tla (implementation-shaped handles/_active_timer refine the functional Handle(); all 2-state machines on a tick grid) + 2 sharpness self-tests + TLC-exported schedules and random schedules replayed on real FSM/Timer/InputExp, batch trace validation',
+         'FsmTimed.tla defines state and pending timer after every event (duration precedence event item > t_STATE > class default, <=0 immediately as a chained '
+         'transition, INF never, none = error, rejected events keep the timer, accepted ones cancel it); MC_FsmTimed checks AtMostOnePending, Refines, NoStaleFire, '
+         'ReportedIsPending, NothingAfterStop on the tick grid and must find the no-cancel and the fired-timer-kept deviations; environment histories exported '
+         'from TLC simulation plus random schedules drive generated timed FSMs, Timer (t_on/t_off/t_period, restartable or not) and InputExp on the virtual-time '
+         'loop; every external event, every expiry (top-level FSM.event call by the loop), stop and end line is validated: expiry exactly at the due tick, never '
+         'overdue, the FSM handles in the loop heap = the one predicted timer, get_state() expiry = that timer, nothing pending or firing after stop.',
+         TRUSTED + '; durations are multiples of 0.25 s; same-instant order of stimulus and expiry is left to asyncio', '6 C04'),
+})
 NA = {}
 ALL = [f'C{n:02d}' for n in range(1, 21)]
 
